@@ -32,7 +32,8 @@ CLAIMED = {
                   "semantics; frame invariant by induction over the circuit) + correspondence + numpy differential sweep"),
     "C06": dict(
         category="proof",
-        text="Coq theorems (conj_tables_ok, clifford_conjugation_sound, non_clifford_rejected): for the conjugation "
+        text="Coq theorems (conj_tables_ok, clifford_conjugation_sound, clifford_conjugation_coefficient_is_a_sign, "
+             "non_clifford_rejected): for the conjugation "
              "tables, Pauli product table and CLIFFORD_GATE_NAMES regenerated from /repo, the model of "
              "clifford_gate_conjugation returns (P', c) with U P = c P' U for every supported Clifford kind, every "
              "placement on distinct qubits of a register of any size and every Pauli string of any length and "
@@ -41,8 +42,8 @@ CLAIMED = {
              "numpy oracle checks U P U^dagger = c P' and c in {+1,-1} on the same cases.",
         design_ref="DESIGN.md section 4 (C06)",
         note="Trusted: Coq kernel+vm_compute; Reals axioms + functional_extensionality_dep; translate/tables.py; "
-             "correspondence harness; documented matrices. Partial: c real (+-1) and rejection of the multi-qubit "
-             "Pauli gate are decided by the sweep, not by a theorem.",
+             "correspondence harness; documented matrices. Partial: rejection of the multi-qubit "
+             "Pauli gate is decided by the sweep, not by a theorem.",
         technique="Coq proof by induction over the Pauli string on generated tables (vm_compute table obligations "
                   "lifted through an n-qubit operator semantics) + model/implementation correspondence + numpy sweep"),
     "C12": dict(
